@@ -175,6 +175,20 @@ CHECKS["C14"] = dict(
          "predicates (names, arities, signs, depths), head formulas with variables, body formulas.",
     design="§6 C14", technique="Lean 4 proof (sorting makes set iteration order irrelevant; model is a pure function; partial) + perturbation runs of the real code")
 
+CHECKS["C06"] = dict(
+    text="Theorems (Lean 4) about telingo's own part in treating schemata: elements_sem / element_sem — the formula built from the "
+         "ground elements of `&tel{ f(X) : c(X) }` is the conjunction over the elements of (condition → element formula), for any "
+         "number of elements in any order (translate_elements sorts by representation); interval_add / interval_addAll — "
+         "IntervalSet.add keeps the sorted-disjoint-nonadjacent invariant and the point set is exactly the union of the added "
+         "ranges (so the merged ranges of a schema's domain rule cover what the ranges of each instance cover).  PARTIAL: that "
+         "the grounder computes the instances is clingo's contract; commutation of the AST rewriting with substitution and "
+         "create_symbol round-trips are not proved.  Tie: the real IntervalSet vs the model on random interval sequences; the L4 "
+         "equation check on theory atoms with several elements and conditions.  Search: a rule schema over d(1..2) vs its own "
+         "textual instantiation (variables, pools, intervals, arithmetic, comparisons, classical negation, aggregates, element "
+         "conditions with local variables, n-fold prefixes given by variables also inside unbounded head operators, #show, "
+         "#external), equal answer sets per horizon.",
+    design="§6 C06", technique="Lean 4 proof (element conjunction semantics, IntervalSet invariant; partial) + schema-vs-instantiation metamorphic search")
+
 NOT_YET = {}
 
 def main():
